@@ -30,6 +30,7 @@ package dispatch
 // values LastReadTime() / LastWriteTime() returned.
 //@ ghost field Dispatcher.done bool
 //@ ghost field Dispatcher.name string
+//@ ghost field Dispatcher.ih core.InfoHash
 //@ ghost field Dispatcher.obsRead time.Time
 //@ ghost field Dispatcher.obsWrite time.Time
 
@@ -37,6 +38,11 @@ package dispatch
 //@ func Dispatcher.Digest
 //@   trusted
 //@   ensures result.hex == d.name
+
+// The info hash of the torrent the dispatcher downloads.
+//@ func Dispatcher.InfoHash
+//@   trusted
+//@   ensures result == d.ih
 
 //@ func Dispatcher.Complete
 //@   trusted
